@@ -43,6 +43,14 @@ pub trait GcManaged {
     fn mark(&self);
 
     fn blacken(&self);
+
+    #[cfg(feature = "verif_hooks")]
+    fn verif_edges(&self, _sink: &mut verif::EdgeSink) {}
+
+    #[cfg(feature = "verif_hooks")]
+    fn verif_stack_range(&self) -> Option<(usize, usize)> {
+        None
+    }
 }
 
 type GcBoxPtr<T> = NonNull<GcBox<T>>;
@@ -51,6 +59,14 @@ struct GcBox<T: GcManaged + ?Sized> {
     colour: Cell<Colour>,
     num_roots: Cell<usize>,
     _pin: PhantomPinned,
+    #[cfg(feature = "verif_hooks")]
+    verif_freed: Cell<bool>,
+    #[cfg(feature = "verif_hooks")]
+    verif_type: &'static str,
+    #[cfg(feature = "verif_hooks")]
+    verif_seq: u64,
+    #[cfg(feature = "verif_hooks")]
+    verif_size: usize,
     pub(crate) data: T,
 }
 
@@ -122,10 +138,14 @@ impl<T: 'static + GcManaged + ?Sized> Root<T> {
 
 impl<T: GcManaged + ?Sized> Root<T> {
     fn gc_box(&self) -> &GcBox<T> {
+        #[cfg(feature = "verif_hooks")]
+        verif::on_deref(self.ptr);
         unsafe { self.ptr.as_ref() }
     }
 
     unsafe fn gc_box_mut(&mut self) -> &mut GcBox<T> {
+        #[cfg(feature = "verif_hooks")]
+        verif::on_deref(self.ptr);
         self.ptr.as_mut()
     }
 }
@@ -218,10 +238,14 @@ impl<T: 'static + GcManaged + ?Sized> UniqueRoot<T> {
 
 impl<T: GcManaged + ?Sized> UniqueRoot<T> {
     fn gc_box(&self) -> &GcBox<T> {
+        #[cfg(feature = "verif_hooks")]
+        verif::on_deref(self.ptr);
         unsafe { self.ptr.as_ref() }
     }
 
     fn gc_box_mut(&mut self) -> &mut GcBox<T> {
+        #[cfg(feature = "verif_hooks")]
+        verif::on_deref(self.ptr);
         unsafe { self.ptr.as_mut() }
     }
 }
@@ -286,6 +310,8 @@ impl<T: 'static + GcManaged> Gc<T> {
 
 impl<T: 'static + GcManaged + ?Sized> Gc<T> {
     fn gc_box(&self) -> &GcBox<T> {
+        #[cfg(feature = "verif_hooks")]
+        verif::on_deref(self.ptr);
         unsafe { self.ptr.as_ref() }
     }
 }
@@ -332,6 +358,8 @@ pub(crate) struct Heap {
     collection_threshold: usize,
     bytes_allocated: usize,
     objects: Vec<Pin<Box<GcBox<dyn GcManaged>>>>,
+    #[cfg(feature = "verif_hooks")]
+    verif_quarantine: Vec<Pin<Box<GcBox<dyn GcManaged>>>>,
 }
 
 impl Heap {
@@ -356,15 +384,27 @@ impl Heap {
     }
 
     fn allocate_raw<T: 'static + GcManaged>(&mut self, data: T) -> GcBoxPtr<T> {
+        #[cfg(feature = "verif_hooks")]
+        let verif_pre = verif::pre_alloc(self);
         if cfg!(any(debug_assertions, feature = "debug_stress_gc")) {
             self.collect();
         } else {
             self.collect_if_required();
         }
+        #[cfg(feature = "verif_hooks")]
+        let verif_seq = verif::post_pacing(self, verif_pre, mem::size_of::<T>());
         let mut boxed = Box::pin(GcBox {
             colour: Cell::new(Colour::White),
             num_roots: Cell::new(0),
             _pin: PhantomPinned,
+            #[cfg(feature = "verif_hooks")]
+            verif_freed: Cell::new(false),
+            #[cfg(feature = "verif_hooks")]
+            verif_type: any::type_name::<T>(),
+            #[cfg(feature = "verif_hooks")]
+            verif_seq,
+            #[cfg(feature = "verif_hooks")]
+            verif_size: mem::size_of::<T>(),
             data,
         });
 
@@ -393,13 +433,19 @@ impl Heap {
             println!("-- gc begin")
         }
 
+        #[cfg(feature = "verif_hooks")]
+        verif::begin_collect();
         self.mark_roots();
         self.trace_references();
+        #[cfg(feature = "verif_hooks")]
+        verif::audit_before_sweep(self);
         let bytes_freed = self.sweep();
 
         let prev_bytes_allocated = self.bytes_allocated;
         self.bytes_allocated -= bytes_freed;
         self.collection_threshold = self.bytes_allocated * common::HEAP_GROWTH_FACTOR;
+        #[cfg(feature = "verif_hooks")]
+        verif::end_collect(self, bytes_freed);
 
         if cfg!(feature = "debug_trace_gc") {
             println!("-- gc end (freed {} bytes)", bytes_freed);
@@ -455,6 +501,8 @@ impl Heap {
             })
             .sum();
 
+        #[cfg(feature = "verif_hooks")]
+        verif::quarantine_whites(self);
         self.objects.retain(|obj| obj.colour.get() == Colour::Black);
 
         bytes_marked
@@ -467,6 +515,8 @@ impl Default for Heap {
             collection_threshold: common::HEAP_INIT_BYTES_MAX,
             bytes_allocated: 0,
             objects: Vec::new(),
+            #[cfg(feature = "verif_hooks")]
+            verif_quarantine: Vec::new(),
         }
     }
 }
@@ -478,6 +528,20 @@ impl<T: GcManaged> GcManaged for RefCell<T> {
 
     fn blacken(&self) {
         self.borrow().blacken();
+    }
+
+    #[cfg(feature = "verif_hooks")]
+    fn verif_edges(&self, sink: &mut verif::EdgeSink) {
+        // try_borrow: the audit may run while the mutator holds a mutable borrow.
+        match self.try_borrow() {
+            Ok(inner) => inner.verif_edges(sink),
+            Err(_) => unsafe { (*self.as_ptr()).verif_edges(sink) },
+        }
+    }
+
+    #[cfg(feature = "verif_hooks")]
+    fn verif_stack_range(&self) -> Option<(usize, usize)> {
+        unsafe { (*self.as_ptr()).verif_stack_range() }
     }
 }
 
@@ -519,6 +583,676 @@ impl<T: GcManaged> GcManaged for &[T] {
     fn blacken(&self) {
         for i in 0..self.len() {
             self[i].blacken();
+        }
+    }
+}
+
+/// Verification hooks (feature `verif_hooks`, off by default): GC schedule control, quarantine
+/// and poison of reclaimed objects, complete-edge audit at sweeps, heap statistics and events.
+#[cfg(feature = "verif_hooks")]
+pub mod verif {
+    use super::*;
+    use std::collections::BTreeMap;
+
+    #[derive(Clone, Debug)]
+    pub enum GcMode {
+        /// Stock pacing, untouched.
+        Default,
+        /// Never collect (threshold pushed to usize::MAX before the stock pacing test).
+        Never,
+        /// Collect at every allocation.
+        Always,
+        /// Collect at an allocation with probability `num`/1024, decided by a splitmix64 stream.
+        Seeded { state: u64, num: u32 },
+        /// Collect at every n-th allocation.
+        EveryNth(u64),
+    }
+
+    #[derive(Clone, Debug)]
+    pub struct Event {
+        pub kind: &'static str,
+        pub signature: String,
+        pub detail: String,
+    }
+
+    #[derive(Clone, Copy, Debug)]
+    pub enum HeapEvent {
+        Alloc {
+            size: usize,
+            bytes_before: usize,
+            threshold_before: usize,
+            collected: bool,
+        },
+        Sweep {
+            freed_shadow: usize,
+            survivors_shadow: usize,
+            freed_reported: usize,
+            bytes_after: usize,
+            threshold_after: usize,
+        },
+    }
+
+    #[derive(Clone, Debug, Default)]
+    pub struct Counters {
+        pub derefs: u64,
+        pub allocations: u64,
+        pub collections: u64,
+        pub audits: u64,
+        pub audited_objects: u64,
+        pub audited_edges: u64,
+        pub upvalue_accesses: u64,
+        pub quarantined: u64,
+        pub sole_edge_labels: Vec<(String, u64)>,
+        pub edge_labels: Vec<(String, u64)>,
+    }
+
+    #[derive(Clone, Debug, Default)]
+    pub struct HeapStats {
+        pub objects: usize,
+        pub rooted: usize,
+        pub bytes_allocated: usize,
+        pub threshold: usize,
+        pub quarantined: usize,
+        pub by_type: Vec<(&'static str, usize, usize)>,
+    }
+
+    const PHASE_MUTATOR: u8 = 0;
+    const PHASE_COLLECT: u8 = 1;
+    const QUARANTINE_CAP_BYTES: usize = 3 << 30;
+    const MAX_EVENTS: usize = 64;
+
+    struct State {
+        mode: RefCell<GcMode>,
+        quarantine_on: Cell<bool>,
+        audit_every: Cell<u64>,
+        trace: Cell<bool>,
+        phase: Cell<u8>,
+        derefs: Cell<u64>,
+        allocations: Cell<u64>,
+        collections: Cell<u64>,
+        audits: Cell<u64>,
+        audited_objects: Cell<u64>,
+        audited_edges: Cell<u64>,
+        upvalue_accesses: Cell<u64>,
+        quarantined: Cell<u64>,
+        quarantine_bytes: Cell<usize>,
+        sweep_freed_shadow: Cell<usize>,
+        sweep_survivors_shadow: Cell<usize>,
+        events: RefCell<Vec<Event>>,
+        event_counts: RefCell<BTreeMap<String, u64>>,
+        heap_events: RefCell<Vec<HeapEvent>>,
+        dead_ranges: RefCell<Vec<(usize, usize)>>,
+        sole_labels: RefCell<BTreeMap<&'static str, u64>>,
+        edge_labels: RefCell<BTreeMap<&'static str, u64>>,
+    }
+
+    thread_local! {
+        static V: State = State {
+            mode: RefCell::new(GcMode::Default),
+            quarantine_on: Cell::new(false),
+            audit_every: Cell::new(0),
+            trace: Cell::new(false),
+            phase: Cell::new(PHASE_MUTATOR),
+            derefs: Cell::new(0),
+            allocations: Cell::new(0),
+            collections: Cell::new(0),
+            audits: Cell::new(0),
+            audited_objects: Cell::new(0),
+            audited_edges: Cell::new(0),
+            upvalue_accesses: Cell::new(0),
+            quarantined: Cell::new(0),
+            quarantine_bytes: Cell::new(0),
+            sweep_freed_shadow: Cell::new(0),
+            sweep_survivors_shadow: Cell::new(0),
+            events: RefCell::new(Vec::new()),
+            event_counts: RefCell::new(BTreeMap::new()),
+            heap_events: RefCell::new(Vec::new()),
+            dead_ranges: RefCell::new(Vec::new()),
+            sole_labels: RefCell::new(BTreeMap::new()),
+            edge_labels: RefCell::new(BTreeMap::new()),
+        };
+    }
+
+    fn record(v: &State, kind: &'static str, signature: String, detail: String) {
+        let mut counts = v.event_counts.borrow_mut();
+        let n = counts.entry(signature.clone()).or_insert(0);
+        *n += 1;
+        if *n == 1 {
+            let mut events = v.events.borrow_mut();
+            if events.len() < MAX_EVENTS {
+                events.push(Event {
+                    kind,
+                    signature,
+                    detail,
+                });
+            }
+        }
+    }
+
+    fn short_type(name: &'static str) -> &'static str {
+        // "core::cell::RefCell<yarel::object::ObjVec>" -> "ObjVec>"-free short form
+        let trimmed = name.trim_end_matches('>');
+        match trimmed.rfind("::") {
+            Some(pos) => &trimmed[pos + 2..],
+            None => trimmed,
+        }
+    }
+
+    // ---------------------------------------------------------------- configuration
+
+    pub fn set_gc_mode(mode: GcMode) {
+        V.with(|v| *v.mode.borrow_mut() = mode);
+    }
+
+    pub fn set_quarantine(on: bool) {
+        V.with(|v| v.quarantine_on.set(on));
+    }
+
+    /// Audit the heap at every k-th sweep (0 = never). Implies the quarantine must be on.
+    pub fn set_audit_every(k: u64) {
+        V.with(|v| v.audit_every.set(k));
+    }
+
+    pub fn set_trace(on: bool) {
+        V.with(|v| v.trace.set(on));
+    }
+
+    pub fn take_events() -> (Vec<Event>, Vec<(String, u64)>) {
+        V.with(|v| {
+            let events = mem::take(&mut *v.events.borrow_mut());
+            let counts = mem::take(&mut *v.event_counts.borrow_mut())
+                .into_iter()
+                .collect();
+            (events, counts)
+        })
+    }
+
+    pub fn take_heap_events() -> Vec<HeapEvent> {
+        V.with(|v| mem::take(&mut *v.heap_events.borrow_mut()))
+    }
+
+    pub fn take_counters() -> Counters {
+        V.with(|v| Counters {
+            derefs: v.derefs.replace(0),
+            allocations: v.allocations.replace(0),
+            collections: v.collections.replace(0),
+            audits: v.audits.replace(0),
+            audited_objects: v.audited_objects.replace(0),
+            audited_edges: v.audited_edges.replace(0),
+            upvalue_accesses: v.upvalue_accesses.replace(0),
+            quarantined: v.quarantined.replace(0),
+            sole_edge_labels: mem::take(&mut *v.sole_labels.borrow_mut())
+                .into_iter()
+                .map(|(k, n)| (k.to_owned(), n))
+                .collect(),
+            edge_labels: mem::take(&mut *v.edge_labels.borrow_mut())
+                .into_iter()
+                .map(|(k, n)| (k.to_owned(), n))
+                .collect(),
+        })
+    }
+
+    pub fn force_collect() {
+        HEAP.with(|heap| heap.borrow_mut().collect());
+    }
+
+    /// Really free everything in the quarantine. Only call when no `Vm` is alive.
+    pub fn purge_quarantine() {
+        let old = HEAP.with(|heap| mem::take(&mut heap.borrow_mut().verif_quarantine));
+        drop(old);
+        V.with(|v| {
+            v.dead_ranges.borrow_mut().clear();
+            v.quarantine_bytes.set(0);
+        });
+    }
+
+    /// Put the pacing state back to that of a fresh heap. Only meaningful on an empty heap.
+    pub fn reset_pacing() {
+        HEAP.with(|heap| {
+            let mut heap = heap.borrow_mut();
+            heap.collection_threshold = common::HEAP_INIT_BYTES_MAX;
+        });
+    }
+
+    pub fn heap_stats() -> HeapStats {
+        HEAP.with(|heap| {
+            let heap = heap.borrow();
+            let mut by_type: BTreeMap<&'static str, (usize, usize)> = BTreeMap::new();
+            let mut rooted = 0;
+            for obj in heap.objects.iter() {
+                let entry = by_type.entry(short_type(obj.verif_type)).or_insert((0, 0));
+                entry.0 += 1;
+                entry.1 += obj.verif_size;
+                if obj.num_roots.get() > 0 {
+                    rooted += 1;
+                }
+            }
+            HeapStats {
+                objects: heap.objects.len(),
+                rooted,
+                bytes_allocated: heap.bytes_allocated,
+                threshold: heap.collection_threshold,
+                quarantined: heap.verif_quarantine.len(),
+                by_type: by_type.into_iter().map(|(k, (n, b))| (k, n, b)).collect(),
+            }
+        })
+    }
+
+    // ---------------------------------------------------------------- allocation / pacing
+
+    pub(super) struct Pre {
+        bytes_before: usize,
+        threshold_before: usize,
+        collections_before: u64,
+    }
+
+    fn splitmix64(state: &mut u64) -> u64 {
+        *state = state.wrapping_add(0x9e37_79b9_7f4a_7c15);
+        let mut z = *state;
+        z = (z ^ (z >> 30)).wrapping_mul(0xbf58_476d_1ce4_e5b9);
+        z = (z ^ (z >> 27)).wrapping_mul(0x94d0_49bb_1331_11eb);
+        z ^ (z >> 31)
+    }
+
+    pub(super) fn pre_alloc(heap: &mut Heap) -> Pre {
+        let pre = Pre {
+            bytes_before: heap.bytes_allocated,
+            threshold_before: heap.collection_threshold,
+            collections_before: V.with(|v| v.collections.get()),
+        };
+        // 0 = nothing, 1 = suppress, 2 = force
+        let decision = V.with(|v| {
+            let index = v.allocations.get();
+            match &mut *v.mode.borrow_mut() {
+                GcMode::Default => 0,
+                GcMode::Never => 1,
+                GcMode::Always => 2,
+                GcMode::Seeded { state, num } => {
+                    if (splitmix64(state) & 1023) < *num as u64 {
+                        2
+                    } else {
+                        1
+                    }
+                }
+                GcMode::EveryNth(n) => {
+                    if *n > 0 && index % *n == 0 {
+                        2
+                    } else {
+                        1
+                    }
+                }
+            }
+        });
+        match decision {
+            1 => heap.collection_threshold = usize::MAX,
+            2 => {
+                heap.collect();
+                heap.collection_threshold = usize::MAX;
+            }
+            _ => {}
+        }
+        pre
+    }
+
+    pub(super) fn post_pacing(_heap: &mut Heap, pre: Pre, size: usize) -> u64 {
+        V.with(|v| {
+            let seq = v.allocations.get();
+            v.allocations.set(seq + 1);
+            if v.trace.get() {
+                let collected = v.collections.get() != pre.collections_before;
+                v.heap_events.borrow_mut().push(HeapEvent::Alloc {
+                    size,
+                    bytes_before: pre.bytes_before,
+                    threshold_before: pre.threshold_before,
+                    collected,
+                });
+            }
+            seq
+        })
+    }
+
+    pub(super) fn begin_collect() {
+        V.with(|v| {
+            v.collections.set(v.collections.get() + 1);
+            v.phase.set(PHASE_COLLECT);
+        });
+    }
+
+    pub(super) fn end_collect(heap: &mut Heap, bytes_freed: usize) {
+        V.with(|v| {
+            v.phase.set(PHASE_MUTATOR);
+            if v.trace.get() {
+                v.heap_events.borrow_mut().push(HeapEvent::Sweep {
+                    freed_shadow: v.sweep_freed_shadow.get(),
+                    survivors_shadow: v.sweep_survivors_shadow.get(),
+                    freed_reported: bytes_freed,
+                    bytes_after: heap.bytes_allocated,
+                    threshold_after: heap.collection_threshold,
+                });
+            }
+        });
+    }
+
+    // ---------------------------------------------------------------- quarantine + poison
+
+    pub(super) fn quarantine_whites(heap: &mut Heap) {
+        V.with(|v| {
+            if v.trace.get() {
+                let mut freed = 0;
+                let mut survivors = 0;
+                for obj in heap.objects.iter() {
+                    if obj.colour.get() == Colour::White {
+                        freed += obj.verif_size;
+                    } else {
+                        survivors += obj.verif_size;
+                    }
+                }
+                v.sweep_freed_shadow.set(freed);
+                v.sweep_survivors_shadow.set(survivors);
+            }
+            if !v.quarantine_on.get() {
+                return;
+            }
+            if !heap
+                .objects
+                .iter()
+                .any(|obj| obj.colour.get() == Colour::White)
+            {
+                return;
+            }
+            let old = mem::take(&mut heap.objects);
+            heap.objects.reserve(old.len());
+            for obj in old {
+                if obj.colour.get() == Colour::White {
+                    obj.verif_freed.set(true);
+                    if let Some(range) = obj.data.verif_stack_range() {
+                        v.dead_ranges.borrow_mut().push(range);
+                    }
+                    v.quarantined.set(v.quarantined.get() + 1);
+                    let mut bytes = v.quarantine_bytes.get() + obj.verif_size;
+                    if obj.data.verif_stack_range().is_some() {
+                        bytes += 1 << 18;
+                    }
+                    v.quarantine_bytes.set(bytes);
+                    heap.verif_quarantine.push(obj);
+                } else {
+                    heap.objects.push(obj);
+                }
+            }
+            if v.quarantine_bytes.get() > QUARANTINE_CAP_BYTES {
+                panic!("verif: quarantine overflow");
+            }
+        });
+    }
+
+    #[inline]
+    pub(super) fn on_deref<T: GcManaged + ?Sized>(ptr: GcBoxPtr<T>) {
+        if (ptr.as_ptr() as *const () as usize) < 4096 {
+            return;
+        }
+        let gc_box = unsafe { ptr.as_ref() };
+        V.with(|v| {
+            v.derefs.set(v.derefs.get() + 1);
+            if gc_box.verif_freed.get() {
+                let during = if v.phase.get() == PHASE_COLLECT {
+                    "Collect"
+                } else {
+                    "Mutator"
+                };
+                let ty = short_type(gc_box.verif_type);
+                record(
+                    v,
+                    "UseAfterReclaim",
+                    format!("UseAfterReclaim({},{})", ty, during),
+                    format!("alloc_seq={}", gc_box.verif_seq),
+                );
+            }
+        });
+    }
+
+    /// Called by `ObjUpvalue::{get,set,close}` with the address an open upvalue points at.
+    pub(crate) fn on_open_upvalue_access(addr: usize, what: &'static str) {
+        V.with(|v| {
+            v.upvalue_accesses.set(v.upvalue_accesses.get() + 1);
+            let dead = v
+                .dead_ranges
+                .borrow()
+                .iter()
+                .any(|&(lo, hi)| addr >= lo && addr < hi);
+            if dead {
+                record(
+                    v,
+                    "UpvalueIntoDeadStack",
+                    format!("UpvalueIntoDeadStack({})", what),
+                    format!("addr={:#x}", addr),
+                );
+            }
+        });
+    }
+
+    // ---------------------------------------------------------------- complete-edge audit
+
+    pub struct EdgeSink {
+        edges: Vec<(&'static str, usize, bool, usize)>, // label, addr, freed, index-or-MAX
+        stack_ptrs: Vec<(&'static str, usize)>,
+    }
+
+    impl EdgeSink {
+        pub fn edge<T: 'static + GcManaged + ?Sized>(&mut self, label: &'static str, gc: &Gc<T>) {
+            let addr = gc.ptr.as_ptr() as *const () as usize;
+            if addr < 4096 {
+                return;
+            }
+            let gc_box = unsafe { gc.ptr.as_ref() };
+            self.edges.push((
+                label,
+                addr,
+                gc_box.verif_freed.get(),
+                gc_box.verif_idx_get(),
+            ));
+        }
+
+        pub fn opt_edge<T: 'static + GcManaged + ?Sized>(
+            &mut self,
+            label: &'static str,
+            gc: &Option<Gc<T>>,
+        ) {
+            if let Some(gc) = gc {
+                self.edge(label, gc);
+            }
+        }
+
+        pub fn stack_ptr(&mut self, label: &'static str, addr: usize) {
+            if addr != 0 {
+                self.stack_ptrs.push((label, addr));
+            }
+        }
+    }
+
+    thread_local! {
+        static IDX: RefCell<std::collections::HashMap<usize, usize>> =
+            RefCell::new(std::collections::HashMap::new());
+    }
+
+    impl<T: GcManaged + ?Sized> GcBox<T> {
+        fn verif_idx_get(&self) -> usize {
+            let addr = self as *const GcBox<T> as *const () as usize;
+            IDX.with(|m| m.borrow().get(&addr).copied().unwrap_or(usize::MAX))
+        }
+    }
+
+    pub(super) fn audit_before_sweep(heap: &mut Heap) {
+        let due = V.with(|v| {
+            let k = v.audit_every.get();
+            k > 0 && v.quarantine_on.get() && v.collections.get() % k == 0
+        });
+        if !due {
+            return;
+        }
+        let n = heap.objects.len();
+        IDX.with(|m| {
+            let mut m = m.borrow_mut();
+            m.clear();
+            for (i, obj) in heap.objects.iter().enumerate() {
+                let addr = obj.as_ref().get_ref() as *const GcBox<dyn GcManaged> as *const () as usize;
+                m.insert(addr, i);
+            }
+        });
+        let mut ranges: Vec<(usize, usize, usize)> = Vec::new();
+        for (i, obj) in heap.objects.iter().enumerate() {
+            if let Some((lo, hi)) = obj.data.verif_stack_range() {
+                ranges.push((lo, hi, i));
+            }
+        }
+        const NONE: usize = usize::MAX;
+        let mut parent: Vec<(usize, &'static str)> = vec![(NONE, ""); n];
+        let mut seen = vec![false; n];
+        let mut indeg = vec![0u32; n];
+        let mut last_in: Vec<&'static str> = vec![""; n];
+        let mut work: Vec<usize> = Vec::new();
+        for (i, obj) in heap.objects.iter().enumerate() {
+            if obj.num_roots.get() > 0 {
+                seen[i] = true;
+                work.push(i);
+            }
+        }
+        let mut sink = EdgeSink {
+            edges: Vec::new(),
+            stack_ptrs: Vec::new(),
+        };
+        let mut edges_seen: u64 = 0;
+        let mut problems: Vec<(&'static str, String, String)> = Vec::new();
+        while let Some(i) = work.pop() {
+            sink.edges.clear();
+            sink.stack_ptrs.clear();
+            let holder = &heap.objects[i];
+            holder.data.verif_edges(&mut sink);
+            let holder_ty = short_type(holder.verif_type);
+            for &(label, addr, freed, idx) in sink.edges.iter() {
+                edges_seen += 1;
+                if freed {
+                    problems.push((
+                        "DanglingEdge",
+                        format!("DanglingEdge({})", label),
+                        format!("holder={} target_addr={:#x}", holder_ty, addr),
+                    ));
+                    continue;
+                }
+                if idx == NONE {
+                    continue;
+                }
+                indeg[idx] += 1;
+                last_in[idx] = label;
+                if !seen[idx] {
+                    seen[idx] = true;
+                    parent[idx] = (i, label);
+                    work.push(idx);
+                }
+            }
+            for &(label, addr) in sink.stack_ptrs.iter() {
+                edges_seen += 1;
+                if let Some(&(_, _, owner)) = ranges.iter().find(|r| addr >= r.0 && addr < r.1) {
+                    indeg[owner] += 1;
+                    last_in[owner] = label;
+                    if !seen[owner] {
+                        seen[owner] = true;
+                        parent[owner] = (i, label);
+                        work.push(owner);
+                    }
+                } else {
+                    let dead = V.with(|v| {
+                        v.dead_ranges
+                            .borrow()
+                            .iter()
+                            .any(|&(lo, hi)| addr >= lo && addr < hi)
+                    });
+                    if dead {
+                        problems.push((
+                            "DanglingEdge",
+                            format!("DanglingEdge({})", label),
+                            format!("holder={} stack_addr={:#x}", holder_ty, addr),
+                        ));
+                    }
+                }
+            }
+        }
+        let mut reached = 0u64;
+        for i in 0..n {
+            if !seen[i] {
+                continue;
+            }
+            reached += 1;
+            let obj = &heap.objects[i];
+            if obj.colour.get() == Colour::White {
+                // Walk up to the first ancestor the stock tracer did reach: the edge leaving it
+                // is the one the tracer does not follow.
+                let mut path = Vec::new();
+                let mut cur = i;
+                let mut missing_label = "";
+                let mut missing_holder = "";
+                let mut steps = 0;
+                while parent[cur].0 != NONE && steps < 16 {
+                    let (p, label) = parent[cur];
+                    path.push(format!(
+                        "{}-[{}]->{}",
+                        short_type(heap.objects[p].verif_type),
+                        label,
+                        short_type(heap.objects[cur].verif_type)
+                    ));
+                    if heap.objects[p].colour.get() != Colour::White && missing_label.is_empty() {
+                        missing_label = label;
+                        missing_holder = short_type(heap.objects[p].verif_type);
+                    }
+                    cur = p;
+                    steps += 1;
+                }
+                if missing_label.is_empty() {
+                    // every ancestor is white too; it is reported at its own ancestor
+                    continue;
+                }
+                path.reverse();
+                problems.push((
+                    "MissingEdge",
+                    format!(
+                        "MissingEdge({}->{})",
+                        missing_label,
+                        short_type(obj.verif_type)
+                    ),
+                    format!("holder={} path={}", missing_holder, path.join(" ")),
+                ));
+            }
+        }
+        V.with(|v| {
+            v.audits.set(v.audits.get() + 1);
+            v.audited_objects.set(v.audited_objects.get() + reached);
+            v.audited_edges.set(v.audited_edges.get() + edges_seen);
+            {
+                let mut sole = v.sole_labels.borrow_mut();
+                let mut all = v.edge_labels.borrow_mut();
+                for i in 0..n {
+                    if seen[i] && indeg[i] >= 1 {
+                        *all.entry(last_in[i]).or_insert(0) += 1;
+                        if indeg[i] == 1 && heap.objects[i].num_roots.get() == 0 {
+                            *sole.entry(last_in[i]).or_insert(0) += 1;
+                        }
+                    }
+                }
+            }
+            for (kind, signature, detail) in problems {
+                record(v, kind, signature, detail);
+            }
+        });
+    }
+
+    impl<T: 'static + GcManaged + ?Sized> Gc<T> {
+        pub fn verif_addr(&self) -> usize {
+            self.ptr.as_ptr() as *const () as usize
+        }
+    }
+
+    impl<T: 'static + GcManaged + ?Sized> Root<T> {
+        pub fn verif_addr(&self) -> usize {
+            self.ptr.as_ptr() as *const () as usize
         }
     }
 }
